@@ -68,7 +68,7 @@ func (s Scenario) reachable() []string {
 	} else {
 		out = append(out, "reader.enter(pc,1)")
 		if s.spied() {
-			out = append(out, "pc.readFrom.enter")
+			out = append(out, "pc.setReadDeadline.enter(future)", "pc.readFrom.enter")
 		}
 	}
 	allDone := true
@@ -82,7 +82,7 @@ func (s Scenario) reachable() []string {
 		if s.stream() {
 			out = append(out, fmt.Sprintf("lis.accept.return(%d)", j), "serveconn.start", fmt.Sprintf("reader.enter(%d,1)", j))
 			if s.spied() && s.Transport != "memTLS" {
-				out = append(out, fmt.Sprintf("conn(%d).setReadDeadline(future)", j), fmt.Sprintf("conn(%d).read.enter", j))
+				out = append(out, fmt.Sprintf("conn(%d).setReadDeadline.enter(future)", j), fmt.Sprintf("conn(%d).setReadDeadline(future)", j), fmt.Sprintf("conn(%d).read.enter", j))
 			}
 		}
 		stopped := false
@@ -224,12 +224,22 @@ func genScenario(t *rapid.T, transports []string) Scenario {
 	// between read and handler
 	var core []string
 	for _, ev := range reach {
-		if strings.HasPrefix(ev, "reader.enter(") || strings.HasPrefix(ev, "lis.accept.return(") || ev == "serveconn.start" || strings.HasPrefix(ev, "accept.policy(") {
+		if strings.HasPrefix(ev, "reader.enter(") || strings.HasPrefix(ev, "lis.accept.return(") || ev == "serveconn.start" || strings.HasPrefix(ev, "accept.policy(") || strings.HasSuffix(ev, "setReadDeadline.enter(future)") {
 			core = append(core, ev)
 		}
 	}
 	if len(core) > 0 && rapid.IntRange(0, 9).Draw(t, "triggerCore") < 3 {
 		s.Trigger = rapid.SampledFrom(core).Draw(t, "coreTrigger")
+	}
+	// the narrowest of them: between a reader's started-check and the effect of its SetReadDeadline
+	var arm []string
+	for _, ev := range reach {
+		if strings.HasSuffix(ev, "setReadDeadline.enter(future)") {
+			arm = append(arm, ev)
+		}
+	}
+	if len(arm) > 0 && rapid.IntRange(0, 9).Draw(t, "triggerArm") == 0 {
+		s.Trigger = rapid.SampledFrom(arm).Draw(t, "armTrigger")
 	}
 	if rapid.IntRange(0, 11).Draw(t, "triggerWild") == 0 && nc > 0 {
 		j := rapid.IntRange(1, nc).Draw(t, "tj")
@@ -335,6 +345,14 @@ func pinFor(s Scenario, ev string) (memnet.Wait, bool) {
 		return memnet.Wait{At: ev, For: "lis.close", Once: true}, true
 	case scan(ev, "conn(%d).read.enter", &j):
 		return memnet.Wait{At: ev, For: fmt.Sprintf("conn(%d).setReadDeadline(past)", j), Once: true}, true
+	case scan(ev, "conn(%d).setReadDeadline.enter(future)", &j):
+		// the reader has decided to arm its deadline (it saw the server started) but the deadline
+		// is not in effect yet: if Shutdown can run in between, its past deadline is overwritten.
+		// (In the pinned code the decision and the call sit under the read lock, Shutdown cannot
+		// get in and this wait simply runs out.)
+		return memnet.Wait{At: ev, For: fmt.Sprintf("conn(%d).setReadDeadline(past)", j), Once: true, TimeoutMs: 60}, true
+	case ev == "pc.setReadDeadline.enter(future)":
+		return memnet.Wait{At: ev, For: "pc.setReadDeadline(past)", Once: true, TimeoutMs: 60}, true
 	case scan(ev, "conn(%d).setReadDeadline(future)", &j):
 		// readTCP holds the read lock here; Shutdown must wait for it
 		return memnet.Wait{At: ev, For: "shutdown.call", Once: true, TimeoutMs: 50}, true
